@@ -7,23 +7,6 @@ package fs
 // ---- statistics ring (C04, C07) -------------------------------------------
 //@ type stats invariant [pos-in-ring] 0 <= self.pos && self.pos < 100
 
-//@ func (*stats).transmittedPerc
-//@   assigns nothing
-//@ func (*stats).totalLineCount
-//@   assigns nothing
-//@   ensures [def] result == f.lineCount
-//@ func (*stats).updatePosition
-//@   assigns f.pos, f.lineCount
-//@   ensures [count] f.lineCount == old(f.lineCount) + 1
-//@   ensures [pos] f.pos == (old(f.pos) + 1) % 100
-//@ func (*stats).updateLineMatched
-//@   assigns f.matched, f.matchCount
-//@ func (*stats).updateLineNotMatched
-//@   assigns f.matched, f.matchCount
-//@ func (*stats).updateLineTransmitted
-//@   assigns f.transmitted, f.transmitCount
-//@ func (*stats).updateLineNotTransmitted
-//@   assigns f.transmitted, f.transmitCount
 
 // ---- reader ----------------------------------------------------------------
 // Raw lines travel as non-nil buffers; delivered lines are non-nil and carry a
@@ -216,14 +199,6 @@ package fs
 // ---- filter without context (C01 S3, C04, C07) -----------------------------------------------
 // g_inStr / g_linesStr: contents of the raw lines received / of the lines
 // delivered, each terminated by the record separator 0x1e.
-//@ func (*readFile).transmittable
-//@   requires [rawLine] rawLine != nil
-//@   requires [regex-usable] len(re.flags) >= 1 && implies(re.flags[0] == regex.Default || re.flags[0] == regex.Invert, re.re != nil)
-//@   assigns f.stats
-//@   ensures [line] result0 != nil
-//@   ensures [content] implies(result1, result0.Content == rawLine && result0.Count == f.lineCount && result0.SourceID == f.globID)
-//@   ensures [delivered-iff] result1 == (reSel(re, content(rawLine)) && !(f.canSkipLines && length >= capacity))
-//@   ensures [position-kept] f.lineCount == old(f.lineCount) && f.pos == old(f.pos)
 
 //@ func (*readFile).filterWithoutLContext
 //@   requires [regex-usable] len(re.flags) >= 1 && implies(re.flags[0] == regex.Default || re.flags[0] == regex.Invert, re.re != nil)
@@ -263,3 +238,58 @@ package fs
 //@ func NewTailFile
 //@   assigns nothing
 //@   ensures [tail-mode] result.readFile.filePath == filePath && result.readFile.globID == globID && result.readFile.canSkipLines && result.readFile.seekEOF && result.readFile.retry
+
+// ---- transmission statistics (C04, C07) ------------------------------------------------------------
+// A ring of the last 100 lines: matched[i] / transmitted[i] say whether the line
+// in slot i matched / was delivered; matchCount and transmitCount count the
+// set slots. Each update touches the current slot only and moves its counter
+// by exactly the change of that slot (so the counters stay the slot counts).
+//@ func (*stats).totalLineCount
+//@   assigns nothing
+//@   ensures [def] result == f.lineCount
+//@ func (*stats).updatePosition
+//@   assigns f.pos, f.lineCount
+//@   ensures [count] f.lineCount == old(f.lineCount) + 1
+//@   ensures [pos] f.pos == (old(f.pos) + 1) % 100
+//@ func (*stats).updateLineMatched
+//@   assigns f.matched, f.matchCount
+//@   ensures [slot] f.matched[f.pos] && forall(i, 0, 100, i == f.pos || f.matched[i] == old(f.matched[i]))
+//@   ensures [counter] f.matchCount == old(f.matchCount) + ite(old(f.matched[f.pos]), 0, 1)
+//@ func (*stats).updateLineNotMatched
+//@   assigns f.matched, f.matchCount
+//@   ensures [slot] !f.matched[f.pos] && forall(i, 0, 100, i == f.pos || f.matched[i] == old(f.matched[i]))
+//@   ensures [counter] f.matchCount == old(f.matchCount) - ite(old(f.matched[f.pos]), 1, 0)
+//@ func (*stats).updateLineTransmitted
+//@   assigns f.transmitted, f.transmitCount
+//@   ensures [slot] f.transmitted[f.pos] && forall(i, 0, 100, i == f.pos || f.transmitted[i] == old(f.transmitted[i]))
+//@   ensures [counter] f.transmitCount == old(f.transmitCount) + ite(old(f.transmitted[f.pos]), 0, 1)
+//@ func (*stats).updateLineNotTransmitted
+//@   assigns f.transmitted, f.transmitCount
+//@   ensures [slot] !f.transmitted[f.pos] && forall(i, 0, 100, i == f.pos || f.transmitted[i] == old(f.transmitted[i]))
+//@   ensures [counter] f.transmitCount == old(f.transmitCount) - ite(old(f.transmitted[f.pos]), 1, 0)
+//@ func percentOf
+//@   assigns nothing
+//@   ensures [hundred-only-if-all] implies(result == 100, total == 0 || total == value)
+//@   ensures [below-hundred-if-fewer] implies(total > 0 && value >= 0 && value < total, result < 100 && result >= 0)
+//@ func (*stats).transmittedPerc
+//@   assigns nothing
+//@   ensures [below-hundred-if-dropped] implies(f.matchCount > 0 && f.transmitCount >= 0 && f.transmitCount < f.matchCount, result < 100)
+
+// transmittable: a matched line is delivered unless the reader may skip lines and
+// the delivery queue is full; a drop leaves the current slot matched and not
+// transmitted (so the percentage computed from the counters is below 100);
+// g_dropPending: a matched line was dropped since the last delivered line.
+//@ func (*readFile).transmittable
+//@   requires [rawLine] rawLine != nil
+//@   requires [regex-usable] len(re.flags) >= 1 && implies(re.flags[0] == regex.Default || re.flags[0] == regex.Invert, re.re != nil)
+//@   assigns f.stats, g_dropPending
+//@   let selected == reSel(re, content(rawLine))
+//@   let dropped == (reSel(re, content(rawLine)) && f.canSkipLines && length >= capacity)
+//@   effect g_dropPending == ite(dropped, 1, ite(selected, 0, old(g_dropPending)))
+//@   ensures [line] result0 != nil
+//@   ensures [content] implies(result1, result0.Content == rawLine && result0.Count == f.lineCount && result0.SourceID == f.globID)
+//@   ensures [delivered-iff] result1 == (selected && !dropped)
+//@   ensures [position-kept] f.lineCount == old(f.lineCount) && f.pos == old(f.pos)
+//@   ensures [drop-accounted] implies(dropped, f.matched[f.pos] && !f.transmitted[f.pos])
+//@   ensures [delivery-accounted] implies(result1, f.matched[f.pos] && f.transmitted[f.pos])
+//@   ensures [drop-is-reported] implies(result1 && old(g_dropPending) == 1, result0.TransmittedPerc < 100)
